@@ -617,10 +617,8 @@ void apply(T *d, const linepart &pt, const S *src, const T &scale)
 	size_t j = 0, len = pt.usr;
 	S sx(scale.x), sy(scale.y), part;
 	
-	if ((part = pt.cut())) {
-		if (pt.raw < 2) {
-			return;
-		}
+	// helper points need a segment of two transformed points
+	if (len > 1 && (part = pt.cut())) {
 		++j;
 		S s1 = src[0];
 		S s2 = src[1];
@@ -629,10 +627,7 @@ void apply(T *d, const linepart &pt, const S *src, const T &scale)
 		d->x += sx * part;
 		d->y += sy * part;
 	}
-	if ((part = pt.trim())) {
-		if (pt.raw < 2) {
-			return;
-		}
+	if (len > 1 && (part = pt.trim())) {
 		--len;
 		S s1 = src[len - 1];
 		S s2 = src[len];
